@@ -134,6 +134,13 @@ def tags(prog):
         return names
     walk(prog["steps"], [], 0)
     ops = [s["op"] for s in prog["steps"]]
+    for i in range(len(ops) - 2):
+        t.add(f"seq3:{ops[i]}>{ops[i+1]}>{ops[i+2]}")
+    for s in prog["steps"]:
+        if s["op"] == "group":
+            ns = [b.get("name") for b in s["by"] if b.get("t") == "col"]
+            if len(set(ns)) < len(ns):
+                t.add("group-keys-same-name")
     if "append" in ops[:-1]:
         t.add("append-not-last")
     for i, o in enumerate(ops):
